@@ -26,7 +26,10 @@ SPEC, CFG = "Trace_Lottery.tla", "Trace_Lottery.cfg"
 
 # classes of runs that the driver must produce whatever the code under test does (else: dead driver, exit 2)
 REQUIRED_COVER = ["Evaluate", "Package", "Solve", "eval_noflips", "eval_flips", "authors_gt7", "authors_le7",
-                  "try_recipient", "try_non_recipient", "src_ceremony", "src_pure"]
+                  "try_recipient", "try_non_recipient", "src_ceremony", "src_pure",
+                  # candidates without a usable public key, at every position of a recipient list
+                  "pkg_keyless_first", "pkg_keyless_middle", "pkg_keyless_last", "pkg_keyless_several",
+                  "pkg_keyless_empty", "pkg_keyless_malformed", "solve_keyless"]
 # corners of the relation that depend on what the code under test does with the layouts: reported only
 REPORTED_COVER = ["placeholder", "authors_ge_quota", "authors_lt_quota", "own_flip", "repeated_recipient", "topped_up"]
 
@@ -112,6 +115,9 @@ def describe(rows, clause):
         lay = ev["lay"]
         authors = {i: k for i, k in enumerate(lay["k"]) if k > 0}
         shape = json.dumps(lay["k"]) if lay["n"] <= 16 else "authors(index:flips) %s" % json.dumps(authors)[:300]
+        keyless = {i: ("no key" if v == 1 else "malformed key") for i, v in enumerate(lay.get("kl", [])) if v}
+        if keyless:
+            shape += ", candidates without a usable public key %s" % json.dumps(keyless)[:200]
         what += "; shard layout: %d candidates, %d authors, %d flips, flips per candidate %s, quota %d, seed %s, source %s" % (
             lay["n"], len(authors), len(lay["fa"]), shape, ev["q"], ev["seed"][:16], ev.get("src"))
     if bad.get("ev") == "Evaluate":
@@ -122,6 +128,30 @@ def describe(rows, clause):
         what += "; observed: %s" % json.dumps(obs)[:700]
     what += "; group %s" % json.dumps({k: v for k, v in head.items() if k != "ev"})
     return what
+
+
+def keyless_spots(rows):
+    """(Package row, one of its 'ok' entries behind a key-less recipient, Solve row of a key-less candidate that is a
+    recipient) of a recorded group, or None."""
+    lay = None
+    pk = later = sv = None
+    for r_ in rows:
+        if r_.get("ev") == "Evaluate":
+            lay = r_["lay"]
+        elif r_.get("ev") == "Package" and lay and r_.get("has") and pk is None:
+            rec = r_["recips"]
+            first = next((i for i, c in enumerate(rec) if c == -2 or (0 <= c < lay["n"] and lay["kl"][c] != 0)), None)
+            if first is not None:
+                e = next((e for e in r_["ext"] if e["res"] == "ok" and e["idx"] > first), None)
+                if e is not None:
+                    pk, later = r_, e
+        elif r_.get("ev") == "Solve" and lay and sv is None:
+            if lay["kl"][r_["c"]] != 0 and any(t["idx"] != -1 for t in r_["tries"]):
+                r_["tries"].sort(key=lambda t: t["idx"] == -1)
+                sv = r_
+    if pk is None or sv is None:
+        return None
+    return pk, later, sv
 
 
 def selftest(ctx, groups):
@@ -142,6 +172,8 @@ def selftest(ctx, groups):
         if lay["n"] < 3 or len(lay["fa"]) < 3 or sum(1 for k in lay["k"] if k > 0) < 2:
             continue
         if not any(r_.get("ev") == "Solve" and any(t["res"] == "ok" for t in r_["tries"]) for r_ in rows):
+            continue
+        if keyless_spots(rows) is None:
             continue
         attempts += 1
         good = ctx.path("selftest", "good.ndjson")
@@ -201,6 +233,19 @@ def selftest(ctx, groups):
     out += rows
     expect.append("PkgIndex")
 
+    # (g) a packager that drops a key-less recipient: the entry of a later recipient is not its own
+    rows = clone()
+    pk, later, sv = keyless_spots(rows)
+    later["res"] = "fail"
+    out += rows
+    expect.append("PackageEntry")
+    # (h) a key-less candidate that obtained a key
+    rows = clone()
+    pk, later, sv = keyless_spots(rows)
+    sv["tries"][0]["res"] = "ok"
+    out += rows
+    expect.append("KeyLeak")
+
     bad = ctx.path("selftest", "bad.ndjson")
     vlib.write_ndjson(bad, out)
     res = validate(ctx, bad, "selftest_bad")
@@ -223,14 +268,32 @@ def main(ctx):
     if not r.ok:
         raise vlib.CheckError("design-level Lottery model violates %s (model-only, not a verdict):\n%s"
                               % (r.invariant, (r.error or "")[:2000]))
-    layouts = [e for e in r.exports if "k" in e and "n" in e]
-    ctx.log("model: %d generated / %d distinct states, %d layouts exported" % (r.generated, r.distinct, len(layouts)))
+    exported = [e for e in r.exports if "k" in e and "n" in e and "kl" in e]
+    # one case per layout, carrying the key-less assignments the model chose for it
+    layouts, by_k = [], {}
+    for e in exported:
+        if not any(e["kl"]):
+            by_k[json.dumps(e["k"])] = c = {"n": e["n"], "k": e["k"], "kls": [], "flips": e.get("flips"), "authors": e.get("authors")}
+            layouts.append(c)
+    n_kl = 0
+    for e in exported:
+        if any(e["kl"]):
+            c = by_k.get(json.dumps(e["k"]))
+            if c is None:
+                raise vlib.CheckError("key-less assignment exported for an unknown layout: %s" % e)
+            if e["kl"] not in c["kls"]:
+                c["kls"].append(e["kl"])
+                n_kl += 1
+    ctx.log("model: %d generated / %d distinct states, %d layouts + %d key-less assignments exported"
+            % (r.generated, r.distinct, len(layouts), n_kl))
     if not layouts:
         raise vlib.CheckError("no layouts exported (dead generator)")
+    if not n_kl:
+        raise vlib.CheckError("no key-less assignments exported (dead generator)")
     cases = ctx.path("cases.json")
     with open(cases, "w") as f:
         for c in layouts:
-            f.write(json.dumps({"n": c["n"], "k": c["k"]}) + "\n")
+            f.write(json.dumps({"n": c["n"], "k": c["k"], "kls": c["kls"]}) + "\n")
 
     # 2. the real code on every layout + seeded larger layouts
     trace = ctx.path("trace.ndjson")
@@ -323,14 +386,17 @@ def main(ctx):
         "solvers_validated": cover.get("Solve", 0),
         "corners_reached": {k: cover.get(k, 0) for k in REQUIRED_COVER + REPORTED_COVER},
         "samples": [layouts[0], layouts[len(layouts) // 2], layouts[-1]],
+        "keyless_assignments": n_kl,
         "selftest_clauses": st,
         "model_cfg": cfg,
         "exhaustive": True,
         "rule": "every shard layout of the bounded model (%d layouts: candidates 0..%d, any author subset, 1..3 flips per author) "
                 "run on the real lottery for %s, each run twice (alone / inside a two-shard call) and once through the real "
                 "calculateCeremonyCandidates with real key packages for every author and key retrieval for every candidate and flip; "
+                "the ceremony-level run repeated for %d key-less assignments (candidates whose state record has no / a malformed public "
+                "key: every subset of <= 2 candidates for the smallest layouts, a layout-dependent singleton and pair above); "
                 "plus %s seeded larger layouts (7..%s candidates, 1-2 shards) with sampled solvers"
-                % (len(layouts), max(c["n"] for c in layouts), " ".join(args[:4]), args[5], args[7]),
+                % (len(layouts), max(c["n"] for c in layouts), " ".join(args[:4]), n_kl, args[5], args[7]),
     }
     return vlib.finish(ctx, "model_checking", cov, assumptions=[
         "the Go PRNG and the queue rotation are not modelled: the specification is a relation on (layout, outputs)",
